@@ -152,24 +152,22 @@ STMTS = [
     ('{n} = tuple({a})',),
     ('{n} = sorted({a})',),
     ('{n} = sum({a}, {b})',),
-    ('{n} = len({a})',),
+    ('{s} = len({a})',),
     ('{n} = int({a}) + 1',),
-    ('{n} = float({a})',),
+    ('{s} = float({a})',),
     ('{n} = str({a}) + repr({b})',),
     ('{n} = f"{{{a}}}-{{{b}!r}}-{{{c}:>4}}"',),
     ('{n} = "%s|%r" % ({a}, {b})',),
     ('{n} = {a} if {b} else {c}',),
     ('{n} = {a} and {b}',),
     ('{n} = {a} or {b} or {c}',),
-    ('{n} = not {a}',),
+    ('{s} = not {a}',),
     ('{n} = {a} < {b} <= {c}',),
-    ('{n} = {a} == {b}',),
-    ('{n} = {a} in {b}',),
-    ('{n} = {a} in ({b}, {c})',),
-    ('{n} = {a} in [{b}, {c}, {e}]',),
+    ('{s} = {a} == {b}',),
+    ('{s} = {a} in {b}',),
     ('{n} = max({a}, {b})',),
     ('{n} = min({a}, {b}, {c})',),
-    ('{n} = abs(int({a}))',),
+    ('{s} = abs(int({a}))',),
     ('{n} = [1, 2, 3][{a}:{b}]',),
     ('{n} = (10, 20, 30)[{a}]',),
     ('{n} = "abcdef"[{a}]',),
@@ -182,10 +180,10 @@ STMTS = [
     ('{n}, {n2} = ({a} + {b}), {c}',),
     ('{n}, *{n2} = {a}',),
     ('{n} = isinstance({a}, int) or {b}',),
-    ('{n} = hash({a})',),
-    ('{n} = bool({a})',),
-    ('{n} = any(x for x in {a})',),
-    ('{n} = all([x for x in {a}])',),
+    ('{s} = hash({a})',),
+    ('{s} = bool({a})',),
+    ('{s} = any(x for x in {a})',),
+    ('{s} = all([x for x in {a}])',),
     ('{n} = list(map(int, {a}))',),
     ('{n} = list(zip({a}, {b}))',),
     ('{n} = list(enumerate({a}))',),
@@ -227,7 +225,12 @@ class Gen:
         new = []
         n, n2 = self.newvar(), self.newvar()
         for line in tpl:
-            s = line.format(a=r.choice(self.vars), b=r.choice(self.vars), c=r.choice(self.vars), e=self.texpr(), n=n, n2=n2)
+            # {s}: scalar result (bool/len/hash/float...) that type inference may turn into a C variable; such
+            # variables are logged but never used as operands (indexing a C bint is a compile-time error in Cython)
+            s = line.format(a=r.choice(self.vars), b=r.choice(self.vars), c=r.choice(self.vars), e=self.texpr(), n=n, n2=n2, s=n)
+            if '{s}' in line:
+                self.lines.append('    ' * ind + s)
+                s = 'log(%s)' % n
             self.lines.append('    ' * ind + s)
         k = tpl[0].split(' ')[0]
         self.feats[tpl[0][:24]] = self.feats.get(tpl[0][:24], 0) + 1
@@ -318,9 +321,11 @@ class Gen:
             L.append(P + '    log("outer")')
             self.sub(ind + 1, depth, 1)
         elif kind == 'with':
+            a, b = r.choice('abc'), r.choice('abc')
             L.append(P + 'with %s:' % a)
             self.sub(ind + 1, depth)
         elif kind == 'with_as':
+            a, b = r.choice('abc'), r.choice('abc')
             x = self.newvar()
             L.append(P + 'with %s as %s, %s:' % (a, x, b))
             saved = list(self.vars)
